@@ -152,8 +152,12 @@ pub async fn type_definition(
                                     if let Some(DataType::Array { creator, .. }) = &v.data_type {
                                         // An anonymous array type is created by the variable
                                         // itself, so there is no type declaration to go to.
-                                        if let Some(entry @ GlobalEntry::Type(t)) =
-                                            doc.table.lookup(creator)
+                                        // (the creator might also be named like a
+                                        // predefined type, which has no declaration either)
+                                        if let Some(entry @ GlobalEntry::Type(t)) = doc
+                                            .table
+                                            .lookup(creator)
+                                            .filter(|entry| !Entry::from(*entry).is_default())
                                         {
                                             return Ok(Some(Location {
                                                 uri,
